@@ -2,6 +2,50 @@
 
 package c11
 
-import "testing"
+import (
+	"testing"
 
-func replayOther(t *testing.T) { t.Skip("no such unit") }
+	"pgregory.net/rapid"
+
+	"servitor/zverif/vrep"
+	"servitor/zverif/vui"
+)
+
+// Feeds: real feeds (splicer.NewSplicer over simulator-served actors with paged outboxes, impostor and
+// missing activities, actors without outbox) opened through the UI and walked item by item; the
+// reference is the model's newest-first merge computed from the world's ground truth.
+func checkFeeds(c vui.HistCase) vrep.Result {
+	r := vui.RunHistory(sim, c, vui.Options{})
+	members := 0
+	for _, f := range c.World.Feeds {
+		if len(f) > members {
+			members = len(f)
+		}
+	}
+	r.Nontrivial = members >= 2
+	return r
+}
+
+func genFeeds(t *rapid.T) vui.HistCase {
+	c := vui.GenHistCase(t)
+	na := len(c.World.Actors)
+	perm := rapid.Permutation([]int{0, 1, 2}[:na]).Draw(t, "feedorder")
+	n := rapid.IntRange(1, na).Draw(t, "feedmembers")
+	c.World.Feeds = map[string][]int{"main": perm[:n]}
+	c.Start = vui.Event{Kind: "feed", Text: "main"}
+	c.Events = nil
+	for r := rapid.IntRange(5, 40).Draw(t, "down"); r > 0; r-- {
+		c.Events = append(c.Events, vui.Event{Kind: "key", B: 'j'})
+	}
+	for r := rapid.IntRange(0, 10).Draw(t, "up"); r > 0; r-- {
+		c.Events = append(c.Events, vui.Event{Kind: "key", B: 'k'})
+	}
+	for r := rapid.IntRange(0, 10).Draw(t, "down2"); r > 0; r-- {
+		c.Events = append(c.Events, vui.Event{Kind: "key", B: 'j'})
+	}
+	return c
+}
+
+func TestFeeds(t *testing.T) { vrep.Run(t, "Feeds", true, genFeeds, checkFeeds) }
+
+func replayOther(t *testing.T) { vrep.Replay(t, "Feeds", checkFeeds) }
